@@ -10,6 +10,7 @@ import Props.C01
 import Props.C08
 import Props.C07Nulls
 import Props.C07Init
+import Props.C07Typed
 /-!
 # C07 — Any supported table synthesizes; schema, dtypes and value domains preserved
 
